@@ -5505,6 +5505,18 @@ func (l *Lowerer) lowerBinary(bin *parser.BinaryExpr, target *[]ir.Statement) (i
 		left, right = l.concretizeBinaryOperands(left, right)
 	}
 
+	// An integer division or remainder whose operands are both constant and
+	// whose divisor is zero is a shader-creation error, not a run-time value.
+	if op == ir.BinaryDivide || op == ir.BinaryModulo {
+		if litL, okL := l.extractConstLiteral(left); okL && isIntegerLiteral(litL) {
+			if litR, okR := l.extractConstLiteral(right); okR && isIntegerLiteral(litR) {
+				if vr, _ := literalToI64(litR); vr == 0 {
+					return 0, errConstIntDivByZero
+				}
+			}
+		}
+	}
+
 	// Constant fold: binary ops on scalar literals.
 	// Matches Rust naga constant evaluator binary_op folding.
 	if result, ok := l.tryFoldBinaryOp(op, left, right); ok {
@@ -5689,7 +5701,7 @@ func (l *Lowerer) tryFoldASTBinary(bin *parser.BinaryExpr) (ir.ExpressionHandle,
 	// Compute result purely in Go values
 	result, ok := foldBinaryLiterals(l.tokenToBinaryOp(bin.Op), leftVal, rightVal)
 	if !ok {
-		return 0, false
+		return 0, false // (an integer division by zero is reported by lowerBinary)
 	}
 
 	return l.interruptEmitter(ir.Expression{Kind: ir.Literal{Value: result}}), true
@@ -10363,6 +10375,8 @@ func (l *Lowerer) resolveType(typ parser.Type) (ir.TypeHandle, error) {
 				}
 				constSize := uint32(n)
 				size.Constant = &constSize
+			} else if errors.Is(err, errConstIntDivByZero) || errors.Is(err, errConstIntModByZero) {
+				return 0, fmt.Errorf("array size: %w", err)
 			} else if name, found := l.firstUndeclaredIdent(t.Size); found {
 				return 0, fmt.Errorf("array size: unresolved identifier: %s", name)
 			}
